@@ -71,15 +71,15 @@ def matrix(tier):
         return runs
     for p in PLANS:
         for i, w in enumerate([1, 2, 3, 4, 6, 8]):
-            runs.append(gen_run(p, "gen-w%d" % w, workers=w, programs=8, ops=90, seed_off=i,
+            runs.append(gen_run(p, "gen-w%d" % w, workers=w, programs=5, ops=70, seed_off=i,
                                 mutators=1 + i % 2))
-        runs.append(gen_run(p, "gen-vo", feats=["vo_bit"], programs=8, ops=90, seed_off=10))
-        runs.append(gen_run(p, "gen-vo-small", feats=["vo_bit"], programs=8, ops=90, heap=10,
+        runs.append(gen_run(p, "gen-vo", feats=["vo_bit"], programs=5, ops=70, seed_off=10))
+        runs.append(gen_run(p, "gen-vo-small", feats=["vo_bit"], programs=5, ops=70, heap=10,
                             workers=4, seed_off=11))
         runs.append(gen_run(p, "gen-stress", programs=6, ops=80, seed_off=12,
                             opts="stress_factor=262144"))
-        runs.append(gen_run(p, "gen-rel", programs=10, ops=100, seed_off=13, release=True))
-        runs.append(gen_run(p, "gen-nolos", programs=8, ops=100, seed_off=14, sems="0,0,1,6"))
+        runs.append(gen_run(p, "gen-rel", programs=6, ops=80, seed_off=13, release=True))
+        runs.append(gen_run(p, "gen-nolos", programs=5, ops=80, seed_off=14, sems="0,0,1,6"))
         runs.append(gen_run(p, "gen-nmimm", feats=["immortal_as_nonmoving"], programs=6, ops=80,
                             seed_off=15))
         runs.append(gen_run(p, "gen-heap48", programs=4, ops=80, seed_off=16, heap=48))
@@ -89,7 +89,7 @@ def matrix(tier):
         runs.append(gen_run(p, "gen-defrag", programs=6, ops=80, seed_off=19, heap=12,
                             opts="immix_always_defrag=true,immix_defrag_every_block=true"))
     runs.append(gen_run("StickyImmix", "gen-sxnm", feats=["sticky_immix_non_moving_nursery"],
-                        programs=8, ops=90, seed_off=20))
+                        programs=5, ops=80, seed_off=20))
     runs.append(gen_run("StickyImmix", "gen-sxnm-vo", feats=["sticky_immix_non_moving_nursery", "vo_bit"],
                         programs=6, ops=90, seed_off=21))
     return runs
